@@ -1082,6 +1082,7 @@ pub fn write_evidence(a: &ParentArgs, sum: &RunSummary, rep: &Report, wall_s: f6
             "simulated_time": {"reference_steps": sum.ref_steps, "unit": "canonical Brainfuck steps executed by the reference model"},
             "fault_kinds_fired": fired,
             "reach": sum.stats,
+            "notes": rep.lines.iter().filter(|l| l.starts_with("NOTE")).collect::<Vec<_>>(),
             "profiles": a.bins.iter().map(|b| json!({"profile": b.0, "workers": b.2})).collect::<Vec<_>>(),
             "real_vs_stub": a.stubs,
             "stopped_early_by_wall_clock_cap": sum.truncated_by_deadline,
